@@ -44,8 +44,8 @@ type explicitValue struct {
 func UnmarshalJSON(b []byte, v *Value) error {
 	// TODO: make this faster if it matters
 	{
-		var res extValueJSON
-		if err := json.Unmarshal(b, &res); err == nil && res.Extn != nil {
+		if fn, arg, ok := escapeMembers(b, "__extn", "fn", "arg"); ok {
+			res := extValueJSON{Extn: &extn{Fn: fn, Arg: arg}}
 			switch res.Extn.Fn {
 			case "ip":
 				val, err := ParseIPAddr(res.Extn.Arg)
@@ -93,11 +93,10 @@ func UnmarshalJSON(b []byte, v *Value) error {
 			// Only the explicit escape is attempted here; the implicit form
 			// {"type":"X","id":"Y"} parses as a Record and requires
 			// schema-guided coercion (see x/exp/types.EntityMap.UnmarshalJSONWithSchema).
-			var ej entityValueJSON
-			if err := json.Unmarshal(b, &ej); err == nil && ej.Entity != nil {
+			if typ, id, ok := escapeMembers(b, "__entity", "type", "id"); ok {
 				*v = EntityUID{
-					Type: EntityType(ej.Entity.Type),
-					ID:   String(ej.Entity.ID),
+					Type: EntityType(typ),
+					ID:   String(id),
 				}
 				return nil
 			}
@@ -129,6 +128,36 @@ func UnmarshalJSON(b []byte, v *Value) error {
 		return errJSONUnsupportedType
 	}
 	return nil
+}
+
+// escapeMembers reports whether b is a JSON object whose member key (matched exactly) is bound
+// to an object that has the string members k1 and k2, and returns the two strings. Further
+// members at either level are ignored.
+func escapeMembers(b []byte, key, k1, k2 string) (string, string, bool) {
+	var outer map[string]json.RawMessage
+	if err := json.Unmarshal(b, &outer); err != nil {
+		return "", "", false
+	}
+	raw, ok := outer[key]
+	if !ok {
+		return "", "", false
+	}
+	var inner map[string]json.RawMessage
+	if err := json.Unmarshal(raw, &inner); err != nil {
+		return "", "", false
+	}
+	r1, r2 := inner[k1], inner[k2]
+	if key == "__extn" && len(r2) == 0 {
+		r2 = []byte(`""`) // {"__extn":{"fn":"x"}} stays an (invalid) escape: pinned by TestJSONSet/TestJSONRecord UnmarshalErr
+	}
+	if len(r1) == 0 || r1[0] != '"' || len(r2) == 0 || r2[0] != '"' {
+		return "", "", false
+	}
+	var s1, s2 string
+	if json.Unmarshal(r1, &s1) != nil || json.Unmarshal(r2, &s2) != nil {
+		return "", "", false
+	}
+	return s1, s2, true
 }
 
 func unmarshalExtensionValue[T any](b []byte, extName string, parse func(string) (T, error)) (T, error) {
